@@ -1273,14 +1273,14 @@ func main() {
 	b.WriteString("(* GENERATED by tools/go-dec-ir from " + dir + " — do not edit *)\n")
 	b.WriteString("From Coq Require Import NArith List.\nFrom LLRP Require Import EncIR.IR DecFIR.IR.\nImport ListNotations.\nOpen Scope N_scope.\n\n")
 	for _, e := range globErrs {
-		b.WriteString("(* hasEnoughBytes NOT translated: " + strings.ReplaceAll(e, "*)", "* )") + " *)\n")
+		b.WriteString("(* hasEnoughBytes NOT translated: " + commentSafe(e) + " *)\n")
 	}
 	var entries []string
 	nodes := 3
 	for _, c := range conts {
 		nodes += c.Nodes
 		if !c.Ok {
-			b.WriteString("(* " + c.Name + " NOT translated: " + strings.ReplaceAll(c.Error, "*)", "* )") + " *)\n")
+			b.WriteString("(* " + c.Name + " NOT translated: " + commentSafe(c.Error) + " *)\n")
 			continue
 		}
 		pre := "p_"
@@ -1322,4 +1322,12 @@ func main() {
 		fmt.Fprintln(os.Stderr, "go-dec-ir: hasEnoughBytes:", e)
 	}
 	fmt.Printf("go-dec-ir: %d containers, %d failed, %d IR nodes\n", len(conts), nfail, nodes)
+}
+
+// commentSafe makes a diagnostic text safe inside a Coq comment: Coq lexes string literals and nested comment brackets
+// inside comments too, so an odd number of double quotes or a stray bracket would make the generated file unreadable
+func commentSafe(s string) string {
+	s = strings.ReplaceAll(s, "\"", "'")
+	s = strings.ReplaceAll(s, "(*", "( *")
+	return strings.ReplaceAll(s, "*)", "* )")
 }
